@@ -79,6 +79,9 @@ class RemoveAddZeroPass(InstructionPass):
 
     def on_instruction(self, instruction):
         if type(instruction) is ir.Binop:
+            if isinstance(instruction.ty, ir.FloatingPointTyp):
+                # x + 0.0 is not x when x is -0.0
+                return
             if instruction.operation == "+":
                 if (
                     type(instruction.b) is ir.Const
